@@ -12,8 +12,8 @@ from common import bits2float, float2bits
 logging.disable(logging.WARNING)
 
 PROP = "EXTRA"
-PROPS_FILES = ["Pms/Props/Extra.lean", "Pms/Props/Filon.lean", "Pms/Props/WaveX.lean", "Pms/Props/Pack.lean", "Pms/Props/Voropp.lean"]
-GENERATORS = ["extra", "filon", "wavex"]
+PROPS_FILES = ["Pms/Props/Extra.lean", "Pms/Props/Filon.lean", "Pms/Props/WaveX.lean", "Pms/Props/Pack.lean", "Pms/Props/Voropp.lean", "Pms/Props/Lws.lean"]
+GENERATORS = ["extra", "filon", "wavex", "lws"]
 RULE = ("random decimal-grid arguments: 2-D line pairs (non-parallel, |D| ≥ 1e-3), triangles from random 2-D/3-D vertices in an open box, "
         "x ∈ [−1, 1]; each evaluation compares the regenerated Lean term (Float) with the real function and checks the theorem's statement on "
         "the real output (point on both lines; law of cosines; Heron = half cross product; P_2 / its 2-D variant; inertia tensor entries)")
@@ -113,7 +113,8 @@ def correspond(run):
     wavex_part(run, tdis, pf)
     pack_part(run, tdis, pf)
     voropp_part(run, tdis, pf)
-    run.coverage["programs"] = 14
+    lws_part(run, tdis, pf)
+    run.coverage["programs"] = 15
     run.coverage["disagreements_checked"] = len(tdis)
     broken = []
     if tdis:
@@ -547,6 +548,68 @@ def voropp_part(run, tdis, pf):
         os.environ.pop("PMS_FAKE_DIR", None)
         shutil.rmtree(tmp, ignore_errors=True)
     np.set_printoptions(edgeitems=3, infstr="inf", linewidth=75, nanstr="nan", precision=8, suppress=False, threshold=1000, formatter=None)
+
+
+def lws_part(run, tdis, pf):
+    """LineWithinSquare: the real routine against the driver's interpretation of the regenerated if-chain (Float atan2) and the
+    regenerated intersection terms; monitor: the returned point lies on the line through R0 and R0 − vector and on the line of one of the
+    four edges (E_lws_point, E_lws_edge).  Directions within 1e-9 of a corner direction are not judged (the chain's `>` / `<=` there)."""
+    from PyMatterSim.utils.geometry import LineWithinSquare
+    rng = run.rng
+    cases = []
+    for _ in range(120 if run.tier == "quick" else 3000):
+        x0, y0 = float(common.dec(rng, -3, 3, 2)), float(common.dec(rng, -3, 3, 2))
+        w, h = float(common.dec(rng, 1, 5, 2)), float(common.dec(rng, 1, 5, 2))
+        jit = lambda: float(common.dec(rng, -0.2, 0.2, 2))
+        P = [[x0 + jit(), y0 + jit()], [x0 + w + jit(), y0 + jit()], [x0 + w + jit(), y0 + h + jit()], [x0 + jit(), y0 + h + jit()]]
+        R0 = [x0 + w * float(common.dec(rng, 0.3, 0.7, 2)), y0 + h * float(common.dec(rng, 0.3, 0.7, 2))]
+        v = [float(common.dec(rng, -4, 4, 2)), float(common.dec(rng, -4, 4, 2))]
+        if abs(v[0]) + abs(v[1]) < 0.05:
+            continue
+        cases.append((P, R0, v))
+    ops = ["lws " + " ".join(float2bits(x) for x in [c for p in P for c in p] + R0 + v) for P, R0, v in cases]
+    outs = common.drive(ops)
+    for (P, R0, v), o in zip(cases, outs):
+        if o == "bad-op":
+            raise common.Infra("driver rejected lws")
+        case = {"kind": "LineWithinSquare", "P": P, "R0": R0, "vector": v}
+        th = math.atan2(-v[1], -v[0])
+        ang = [math.atan2(p[1] - R0[1], p[0] - R0[0]) for p in P]
+        if min(abs(th - a) for a in ang) < 1e-9:
+            continue
+        run.hist("routine", "LineWithinSquare"); run.count(("lws", repr(P), repr(R0), repr(v)), True)
+        try:
+            r = LineWithinSquare(*[np.array(p) for p in P], np.array(R0), np.array(v))
+        except Exception as e:
+            pf.append((case, f"LineWithinSquare raised {type(e).__name__}: {e}"))
+            continue
+        t = o.split()
+        mx, my = bits2float(t[2]), bits2float(t[3])
+        run.hist("lws_edge", f"{t[0]}-{t[1]}")
+        if not (common.close(float(r[0]), mx, 1e-9, 1e-9) and common.close(float(r[1]), my, 1e-9, 1e-9)):
+            tdis.append((case, f"LineWithinSquare = {[float(r[0]), float(r[1])]} vs the regenerated chain and terms {[mx, my]} (edge {t[0]}-{t[1]})"))
+        cr = lambda a, b, q: (b[0] - a[0]) * (q[1] - a[1]) - (b[1] - a[1]) * (q[0] - a[0])
+        R1 = [R0[0] - v[0], R0[1] - v[1]]
+        sc = 1 + max(abs(x) for p in P for x in p) ** 2 + abs(float(r[0])) ** 2 + abs(float(r[1])) ** 2
+        on_ray = abs(cr(R0, R1, r)) <= 1e-7 * sc
+        on_edge = any(abs(cr(P[k], P[(k + 1) % 4], r)) <= 1e-7 * sc for k in range(4))
+        if not (on_ray and on_edge):
+            pf.append((case, f"LineWithinSquare returned {[float(r[0]), float(r[1])]}: not on the line through R0 and R0 − vector, or on none of the four edge lines"))
+            continue
+        # the statement itself, by brute force: where the ray from R0 towards R1 = R0 − vector leaves the (convex) quadrilateral
+        hit = None
+        for k in range(4):
+            a, b = P[k], P[(k + 1) % 4]
+            ex, ey, dx, dy = b[0] - a[0], b[1] - a[1], -v[0], -v[1]
+            den = dx * ey - dy * ex
+            if abs(den) < 1e-12:
+                continue
+            tt = ((a[0] - R0[0]) * ey - (a[1] - R0[1]) * ex) / den
+            ss = ((a[0] - R0[0]) * dy - (a[1] - R0[1]) * dx) / den
+            if tt > 1e-9 and -1e-9 <= ss <= 1 + 1e-9:
+                hit = [R0[0] + tt * dx, R0[1] + tt * dy]
+        if hit is not None and (abs(hit[0] - float(r[0])) > 1e-6 * sc or abs(hit[1] - float(r[1])) > 1e-6 * sc):
+            pf.append((case, f"LineWithinSquare returned {[float(r[0]), float(r[1])]}, the ray from R0 towards R0 − vector leaves the quadrilateral at {hit}"))
 
 
 def search(run, broken):
